@@ -175,6 +175,9 @@ FILE_TEXTS = [      # valid modules whose line structure matters
     'import sys\n\nif len(sys.argv) < 2:\n    print("usage: prog \\\n[options] file")\n    sys.exit(2)\nprint(sys.argv[1])\n',
     'import os\nimport sys\n\n\ndef usage():\n    return "first line \\\nsecond line" + \\\n        "third"\n\n\nprint(usage(), sys.argv)\n',
     '"""\\\nDocstring that starts on the second line.\n"""\nimport os\nimport sys\n\nprint(sys.argv)\n',
+    # round 5: backslash continuation onto a blank last line / after the docstring line
+    "import sys\nprint(sys.argv)\nx = 1 \\\n   \n",
+    '"""doc"""\\\n\nprint(os)\n',
 ]
 
 
@@ -398,6 +401,11 @@ def continuation_family():
             (f"block/fragment/{gt}", "    x = np.zeros(3) \\\n" + gap + "    print(x)\n"),
             (f"after-shebang/{gt}", '#!/usr/bin/env python\n"""doc""" \\\n' + gap + "from __future__ import annotations \\\n" + gap + "print(os)\n"),
         ]
+    # the same with \r\n line endings (format_code is handed such text by API callers; files are read with universal newlines)
+    crlf = [(tag + "/crlf", s.replace("\n", "\r\n")) for tag, s in out
+            if tag.split("/")[0] in ("docstring", "assign", "call", "witness") and (tag.count("/") == 1 or tag.split("/")[1] in ("blank", "spaces", "blanks3"))
+            and (tag.count("/") < 2 or tag.split("/")[2] in ("undefined", "nothing", "plain"))]
+    out += crlf
     seen, res = set(), []
     for tag, s in out:
         if s not in seen and valid(s):
